@@ -74,12 +74,35 @@ type ShAmb struct {
 	C string
 }
 
+// shHidden is an embedded type whose *name* is unexported; its exported fields are promoted all the same
+// (Go selector rules, reflect.Type.FieldByName and encoding/json agree on that).
+type shHidden struct {
+	Hid  string
+	HidN float64
+}
+
+type HiddenPtr struct {
+	*shHidden
+	Tag string
+}
+
+type HiddenVal struct {
+	shHidden
+	Tag string
+}
+
+// HiddenDeep reaches the unexported embedded pointer one level down.
+type HiddenDeep struct {
+	HiddenPtr
+	Deep string
+}
+
 // ShadowFieldNames are the names usable in expressions (embedded type names are excluded: they exist
 // as Go fields but not in the JSON form).
-var ShadowFieldNames = []string{"Name", "ID", "Only", "Own", "Mid", "Deep", "A", "B", "C", "Tag"}
+var ShadowFieldNames = []string{"Name", "ID", "Only", "Own", "Mid", "Deep", "A", "B", "C", "Tag", "Hid", "HidN"}
 
 // ShadowKeys are the top-level keys of ShadowDoc.
-var ShadowKeys = []string{"One", "First", "PNil", "PSet", "QNil", "QSet", "Mid", "Deep", "Amb", "Items", "PItems", "QItems", "POne"}
+var ShadowKeys = []string{"One", "First", "PNil", "PSet", "QNil", "QSet", "Mid", "Deep", "Amb", "Items", "PItems", "QItems", "POne", "HNil", "HSet", "HVal", "HDeep", "HItems"}
 
 // ShadowDoc builds one document of the embedding family. order permutes
 // the nil / non-nil pointer elements of the typed slices.
@@ -113,6 +136,11 @@ func ShadowDoc(r *gen.Rand, order int) map[string]interface{} {
 		"Items":  items,
 		"PItems": pitems,
 		"QItems": qitems,
+		"HNil":   HiddenPtr{Tag: "hnil"},
+		"HSet":   HiddenPtr{shHidden: &shHidden{Hid: nm("hid"), HidN: float64(r.Intn(3))}, Tag: "hset"},
+		"HVal":   HiddenVal{shHidden: shHidden{Hid: "by-value", HidN: 7}, Tag: "hval"},
+		"HDeep":  HiddenDeep{HiddenPtr: HiddenPtr{shHidden: &shHidden{Hid: "deep-hid", HidN: 8}, Tag: "hd"}, Deep: "hdeep"},
+		"HItems": []HiddenPtr{{Tag: "h0"}, {shHidden: &shHidden{Hid: "h1", HidN: 1}, Tag: "h1"}, {shHidden: &shHidden{Hid: "", HidN: 0}, Tag: "h2"}},
 	}
 }
 
